@@ -1436,7 +1436,11 @@ DOMStringHelper::NumberToCharacters(
             theZeroString,
             sizeof(theZeroString) / sizeof(theZeroString[0]) - 1);
     }
-    else if (static_cast<XMLInt64>(theValue) == theValue)
+    // Only a value inside the range of XMLInt64 may be converted:
+    // the conversion of any other value is undefined.
+    else if (theValue >= -9223372036854775808.0 &&
+             theValue < 9223372036854775808.0 &&
+             static_cast<XMLInt64>(theValue) == theValue)
     {
         NumberToCharacters(static_cast<XMLInt64>(theValue), formatterListener, function);
     }
@@ -1736,7 +1740,11 @@ NumberToDOMString(
             theZeroString,
             sizeof(theZeroString) / sizeof(theZeroString[0]) - 1);
     }
-    else if (static_cast<XMLInt64>(theValue) == theValue)
+    // Only a value inside the range of XMLInt64 may be converted:
+    // the conversion of any other value is undefined.
+    else if (theValue >= -9223372036854775808.0 &&
+             theValue < 9223372036854775808.0 &&
+             static_cast<XMLInt64>(theValue) == theValue)
     {
         NumberToDOMString(static_cast<XMLInt64>(theValue), theResult);
     }
